@@ -330,6 +330,8 @@ def gen_scenario(rng, nops=None, profile=None):
             s.apply(op)
             steps.append({"op": op, "lines": list(s.k.log), "snap": s.snapshot() if not s.blocked else "s blocked",
                           "slept": s.k.slept})
+            if "o close ctrl" in s.k.log:
+                break                      # the daemon has shut down: nothing after this is meaningful
     finally:
         s.teardown()
     return sc, steps
